@@ -6,6 +6,7 @@ import (
 	"sort"
 	"strconv"
 	"strings"
+	"sync/atomic"
 	"time"
 
 	"github.com/redis/rueidis"
@@ -30,7 +31,17 @@ func init() {
 
 // ---- episode execution ---------------------------------------------------------------------------
 
+type sfState struct {
+	call     rueidis.VerifCall
+	runs     int32
+	release  chan struct{}
+	returned chan int
+	blocked  int // callers inside Do (leader or waiters)
+	inflight bool
+}
+
 type episode struct {
+	sf    *sfState
 	s     *sim
 	vc    *rueidis.VerifCluster
 	opt   map[string]string
@@ -262,6 +273,72 @@ func (e *episode) exec(line string) {
 			}
 		}
 		e.emit(line, strings.Join(out, " "), true)
+	case "sf-enter", "sf-delay":
+		if e.sf == nil {
+			e.sf = &sfState{release: make(chan struct{}), returned: make(chan int, 64)}
+		}
+		sf := e.sf
+		fn := func() error {
+			atomic.AddInt32(&sf.runs, 1)
+			<-sf.release
+			return nil
+		}
+		runs0, cn0 := atomic.LoadInt32(&sf.runs), sf.call.Suppressing()
+		if w[0] == "sf-enter" {
+			id, _ := strconv.Atoi(w[1])
+			go func() {
+				sf.call.Do(context.Background(), fn)
+				sf.returned <- id
+			}()
+			for sf.call.Suppressing() == cn0 { // the locked prefix of Do has run once cn moved
+				time.Sleep(50 * time.Microsecond)
+			}
+			sf.blocked++
+		} else {
+			sf.call.DelayDo(0, fn)
+		}
+		lead := false
+		for dl := time.Now().Add(40 * time.Millisecond); time.Now().Before(dl); time.Sleep(100 * time.Microsecond) {
+			if atomic.LoadInt32(&sf.runs) > runs0 {
+				lead = true
+				break
+			}
+		}
+		switch {
+		case lead:
+			sf.inflight = true
+			e.emit(line, "leader", true)
+		case w[0] == "sf-enter":
+			e.emit(line, "wait", true)
+		default:
+			e.emit(line, "skip", true)
+		}
+	case "sf-finish":
+		if e.sf == nil {
+			e.sf = &sfState{release: make(chan struct{}), returned: make(chan int, 64)}
+		}
+		sf := e.sf
+		var rel []int
+		if sf.inflight {
+			sf.release <- struct{}{}
+			for i := 0; i < sf.blocked; i++ {
+				rel = append(rel, <-sf.returned)
+			}
+			for sf.call.InFlight() { // DelayDo's goroutine finishes on its own
+				time.Sleep(50 * time.Microsecond)
+			}
+			sf.blocked, sf.inflight = 0, false
+		}
+		sort.Ints(rel)
+		rs := "-"
+		if len(rel) > 0 {
+			ss := make([]string, len(rel))
+			for i, r := range rel {
+				ss[i] = strconv.Itoa(r)
+			}
+			rs = strings.Join(ss, ",")
+		}
+		e.emit(line, fmt.Sprintf("released=%s runs=%d cn=%d", rs, atomic.LoadInt32(&sf.runs), sf.call.Suppressing()), true)
 	case "pickmulti", "pickmcache":
 		var specs []cmdSpec
 		for _, cw := range w[1:] {
@@ -783,8 +860,34 @@ func runCluster(c *Ctx) {
 	}
 }
 
+// genSF: one single-flight episode: callers entering during and between flights, DelayDo, completions.
+func genSF(c *Ctx) []string {
+	lines := []string{"reset ver=7 tls=0 mode=plain maxredir=0 retry=1 budget=0 init=31"}
+	id := 0
+	waits := 0
+	for i, n := 0, 3+c.Rng.IntN(8); i < n; i++ {
+		switch c.Rng.IntN(5) {
+		case 0, 1:
+			if waits < 4 { // a waiter costs the observation window
+				lines = append(lines, fmt.Sprintf("sf-enter %d", id))
+				id++
+				waits++
+			}
+		case 2:
+			lines = append(lines, "sf-delay")
+		default:
+			lines = append(lines, "sf-finish")
+		}
+	}
+	lines = append(lines, "sf-finish", fmt.Sprintf("sf-enter %d", id), "sf-finish")
+	return lines
+}
+
 func runRoute(c *Ctx) {
 	for i := 0; i < c.N; i++ {
 		runEpisodeLines(c, genEpisode(c, i, "route"))
+		if i%40 == 0 {
+			runEpisodeLines(c, genSF(c))
+		}
 	}
 }
